@@ -902,6 +902,44 @@ def g_program(rnd, theory=False, nsteps=None, redefine=False):
     return prog
 
 
+def reverse_ids(prog, rnd):
+    """Rename the theory term ids and element ids of a whole program by order-REVERSING maps (id -> (max - id) * gap + offset), so that within a
+    step higher ids are announced before lower ones and the id tables have holes (seeded C06-r13: an element with a lower id announced after
+    one with a higher id was refused as a redefinition). Order-reversing keeps "compound terms refer only to ids on one side", hence acyclic."""
+    tids, eids = set(), set()
+    for c in prog:
+        if c[0] in (13, 14):
+            tids.add(c[1])
+        elif c[0] == 15:
+            tids.add(c[1]); tids.update(c[3]); tids.update([c[2]] if c[2] >= 0 else [])
+        elif c[0] == 16:
+            eids.add(c[1]); tids.update(c[2])
+        elif c[0] in (17, 18):
+            tids.add(c[2]); eids.update(c[3])
+            if c[0] == 18:
+                tids.update([c[4], c[5]])
+    if not tids and not eids:
+        return prog
+    gt, ot, ge, oe = rnd.choice([1, 1, 2]), rnd.choice([0, 0, 3]), rnd.choice([1, 1, 2]), rnd.choice([0, 0, 2])
+    mt, me = max(tids or [0]), max(eids or [0])
+    ft = lambda i: (mt - i) * gt + ot
+    fe = lambda i: (me - i) * ge + oe
+    out = []
+    for c in prog:
+        if c[0] in (13, 14):
+            c = (c[0], ft(c[1])) + tuple(c[2:])
+        elif c[0] == 15:
+            c = (15, ft(c[1]), ft(c[2]) if c[2] >= 0 else c[2], [ft(x) for x in c[3]])
+        elif c[0] == 16:
+            c = (16, fe(c[1]), [ft(x) for x in c[2]], c[3])
+        elif c[0] == 17:
+            c = (17, c[1], ft(c[2]), [fe(x) for x in c[3]])
+        elif c[0] == 18:
+            c = (18, c[1], ft(c[2]), [fe(x) for x in c[3]], ft(c[4]), ft(c[5]))
+        out.append(c)
+    return out
+
+
 FIXED = [
     ([(1, False), (2,), (4, 1, [], [1]), (3,)], 'empty-choice-head'),
     ([(1, False), (2,), (4, 1, [], []), (3,)], 'empty-choice-head-empty-body'),
@@ -963,10 +1001,18 @@ def gen(seed, tier):
             # a single degenerate directive
             out.append((enc_all([(1, False), (2,), g_dir(rnd), (3,)]), {'kind': 'single-directive'}))
         elif r < 0.82:
-            out.append((enc_all(g_program(rnd, theory=True)), {'kind': 'theory'}))
+            p = g_program(rnd, theory=True)
+            if rnd.random() < 0.3:
+                out.append((enc_all(reverse_ids(p, rnd)), {'kind': 'theory-ids-descending'}))
+            else:
+                out.append((enc_all(p), {'kind': 'theory'}))
         elif r < 0.92:
             # ids are unique per step only: atom-less steps, later steps that re-define earlier term / element ids and use them
-            out.append((enc_all(g_program(rnd, theory=True, redefine=True)), {'kind': 'theory-redefine'}))
+            p = g_program(rnd, theory=True, redefine=True)
+            if rnd.random() < 0.3:
+                out.append((enc_all(reverse_ids(p, rnd)), {'kind': 'theory-redefine-ids-descending'}))
+            else:
+                out.append((enc_all(p), {'kind': 'theory-redefine'}))
         else:
             p = g_program(rnd, theory=True)
             # malformed: duplicate a theory definition, reference an unknown id, or name a theory atom's atom
